@@ -259,7 +259,7 @@ func nearMisses() []ParseCase {
 				if ip == "" && (fp == "" || fp == ".") {
 					continue
 				}
-				acc("decimal number grid", ip+fp+ex, "$[" + ip+fp+ex + "]", "-" + ip+fp+ex)
+				acc("decimal number grid", ip+fp+ex, "$["+ip+fp+ex+"]", "-"+ip+fp+ex)
 			}
 		}
 	}
